@@ -101,8 +101,9 @@ def translate_unit(ucls, repo):
     path = os.path.join(repo, u.file)
     src = open(path).read()
     fns = rsparse.parse_file(path)
+    impls = getattr(u, "impls", None) or (u.impl,)      # `impls`: a unit that spans several inherent impl blocks
     mine = [f for f in fns if (f.impl_of is None and u.impl is None) or
-            (f.impl_of is not None and f.impl_of[1] == u.impl and (f.impl_of[0] is None or f.impl_of[0] in u.traits))]
+            (f.impl_of is not None and f.impl_of[1] in impls and (f.impl_of[0] is None or f.impl_of[0] in u.traits))]
     if u.only is not None if hasattr(u, "only") else False:
         mine = [f for f in mine if f.name in u.only or f.name in u.skip]
     u.fns = {f.name: f for f in mine}
@@ -113,6 +114,10 @@ def translate_unit(ucls, repo):
         got = struct_fields(src, u.struct[0])
         if got != u.struct[1]:
             problems.append(f"struct {u.struct[0]} has fields {got}, the model knows {u.struct[1]}")
+    for sname, sfields in getattr(u, "structs", ()):    # units over several structs
+        got = struct_fields(src, sname)
+        if got != sfields:
+            problems.append(f"struct {sname} has fields {got}, the model knows {sfields}")
     em = Emitter(u)
     defs, done = [], []
     mine = topo(mine, u)
